@@ -52,3 +52,8 @@ def classify(case, v):
     if case["set"].get("P", 1) > f.get("npanels", 10 ** 9): labs.append("nprocs>npanels")
     if case.get("singular"): labs.append("singular_input")
     return labs
+
+
+def extra_phase(tier, seed):
+    from props.common import scheduler_model_phase
+    return scheduler_model_phase(ID, tier, seed)
